@@ -15,8 +15,14 @@ by harness/c11/src/idem.rs and, at CLI level, by harness/c05):
   (finding C05-source-dir-name-restripped).
 Proved under the guards the witnesses violate: the prefix dir absent or absolute, and every
 reported file existing below the (clean, absolute) source dir; and for paths outside any option.
+`C05_rewrite_idempotent_sharp` (second review, item 25) replaces the two coarse guard sets by three
+conditions on the REPORTED paths, one per re-stripping mechanism – each of the three witnesses
+violates exactly one of them, and configurations between the old guards (missing files below the
+source dir, an absolute prefix without source dir, a relative prefix, absolute paths outside the
+source dir) are covered.
 -/
 import GrcovModel.Lemmas.RewriteIdem
+import GrcovModel.Lemmas.RewriteSharp
 namespace Grcov.Props.C05
 open Grcov Grcov.UPath Grcov.Glob Grcov.Rewrite
 
@@ -171,6 +177,94 @@ theorem C05_rewrite_idempotent_plain_partial (cfg : Cfg) (fs : FS) (m : List (By
   intro r hr
   obtain ⟨a, _, e⟩ := hg r hr
   simp [e]
+
+/-- **Idempotence, sharp guard.** No path mapping, no symbolic links, clean current directory,
+the source dir absent or clean and absolute, `--ignore-not-existing` off; any prefix dir (relative
+or absolute, below the source dir or not), any globs and `--filter`, files on disk or not. If every
+reported path is non-empty (a file, not the source dir itself: `C11_rel_nonempty_iff`) and
+* `hrel`   the prefix dir is not a (component-wise) prefix of it,
+* `hguess` when it is relative and there is a source dir `S`, `guess_abs_path` resolves it
+           directly below `S` (the file exists there, or no leading part of the path repeats
+           the tail of `S`),
+* `habs`   when it is absolute, it is not below the source dir,
+then re-importing the report reproduces the same relative paths with the same data. Witness 1 and
+3 violate `hrel`, witness 2 violates `hguess` (examples below); `habs` holds of every path the
+first run reports absolute on such a tree. -/
+theorem C05_rewrite_idempotent_sharp (cfg : Cfg) (fs : FS) (m : List (Bytes × Cov)) (rep : List Rec)
+    (hM : cfg.mapping = none) (hl : fs.noLinks) (hcwd : ∀ n ∈ fs.cwd, RealName n)
+    (hSrc : ∀ S, cfg.sourceDir = some S → ∃ sn, S = render ⟨true, sn⟩ ∧ ∀ n ∈ sn, RealName n)
+    (hE : cfg.ignoreNotExisting = false)
+    (hne : ∀ r ∈ rep, r.rel ≠ [])
+    (hrel : ∀ r ∈ rep, removePrefix cfg.prefixDir r.rel = r.rel)
+    (hguess : ∀ r ∈ rep, ∀ S, cfg.sourceDir = some S → isRelative r.rel = true →
+      guessAbsPath fs S r.rel = some (push S r.rel))
+    (habs : ∀ r ∈ rep, ∀ S, cfg.sourceDir = some S → isRelative r.rel = false →
+      stripPrefix r.rel S = none)
+    (h : rewritePaths cfg fs m = .ok rep) :
+    ∃ rep', rewritePaths cfg fs (reKeys rep) = .ok rep' ∧ reKeys rep' = reKeys rep := by
+  obtain ⟨habs0, _, _⟩ := (rewritePaths_eq_ok cfg fs m rep).1 h
+  have hkey : ∀ r ∈ rep, ∃ a, rewriteKey cfg fs (r.rel, r.cov) = .ok (some ⟨a, r.rel, r.cov⟩) := by
+    intro r hr
+    obtain ⟨kc, _, hk⟩ := (mem_rewritePaths h r).1 hr
+    obtain ⟨a, rl, hres, hsel⟩ := (rewriteKey_some_iff _ _ _ _).1 hk
+    obtain ⟨h1, h2, _, h4, e⟩ := (selectRec_some_iff _ _ _ _ _ _).1 hsel
+    obtain ⟨r0, _, hf⟩ := resolveKey_some hres
+    obtain ⟨⟨np, enp, hreal⟩, hnb⟩ := finalRel_shape hf
+    have erel : r.rel = render np := by rw [e]; exact enp
+    obtain ⟨a', ha'⟩ := resolveKey_sharp (cfg := cfg) (fs := fs) hM hl hcwd hSrc hreal (enp ▸ hnb)
+      (erel ▸ hne r hr) (erel ▸ hrel r hr) (erel ▸ hguess r hr) (erel ▸ habs r hr)
+    refine ⟨a', ?_⟩
+    rw [rewriteKey_some_iff]
+    refine ⟨a', r.rel, by rw [erel]; exact ha', ?_⟩
+    rw [selectRec_some_iff]
+    subst e
+    exact ⟨h1, h2, by simp [hE], h4, rfl⟩
+  let g : Rec → Rec := fun r => (okPart (rewriteKey cfg fs (r.rel, r.cov))).getD r
+  have hg : ∀ r ∈ rep, ∃ a, rewriteKey cfg fs (r.rel, r.cov) = .ok (some (g r)) ∧
+      g r = ⟨a, r.rel, r.cov⟩ := by
+    intro r hr
+    obtain ⟨a, ha⟩ := hkey r hr
+    have : g r = ⟨a, r.rel, r.cov⟩ := by simp [g, ha, okPart]
+    exact ⟨a, by rw [this]; exact ha, this⟩
+  refine ⟨rep.map g, rewritePaths_reKeys cfg fs rep g habs0 (fun r hr => (hg r hr).choose_spec.1), ?_⟩
+  unfold reKeys
+  rw [List.map_map]
+  apply List.map_congr_left
+  intro r hr
+  obtain ⟨a, _, e⟩ := hg r hr
+  simp [e]
+
+/-- each witness violates exactly the guard named after its mechanism: witness 1 (`-p a`, reported
+`a/x.c`) and witness 3 (`-p /p`, reported `/p/a.c`) violate `hrel`; witness 2 (`-s /x/foo`, reported
+`foo/bar.c`, not on disk) satisfies `hrel` and violates `hguess` -/
+example :
+    removePrefix (some [97]) [97, 47, 120, 46, 99] ≠ [97, 47, 120, 46, 99] ∧
+    removePrefix (some [47, 112]) [47, 112, 47, 97, 46, 99] ≠ [47, 112, 47, 97, 46, 99] ∧
+    removePrefix none [102, 111, 111, 47, 98, 97, 114, 46, 99] = [102, 111, 111, 47, 98, 97, 114, 46, 99] ∧
+    guessAbsPath { files := [], dirs := [[[120]], [[120], [102, 111, 111]]], cwd := [[120]] }
+        [47, 120, 47, 102, 111, 111] [102, 111, 111, 47, 98, 97, 114, 46, 99]
+      ≠ some (push [47, 120, 47, 102, 111, 111] [102, 111, 111, 47, 98, 97, 114, 46, 99]) := by decide
+
+/-- the five configurations of the review's probe (`lcov/C05GuardGap.lean`) – outside both older
+partial theorems, violating none of the findings – meet the guards of the sharp theorem: a missing
+`foo/x.c` under `-s /s -p /s`; the missing absolute `/s/foo/x.c` (reported `foo/x.c`); `-p /p`
+without `-s` on `/p/a/x.c` (reported `a/x.c`); the relative `-p a` on `a/b/x.c` (reported `b/x.c`);
+the absolute `/other/x.c` outside `-s /s` -/
+example :
+    let fsE : FS := { files := [], dirs := [[[115]]], cwd := [[115]] }
+    let S : Bytes := [47, 115]
+    -- foo/x.c under -s /s -p /s
+    (removePrefix (some S) [102, 111, 111, 47, 120, 46, 99] = [102, 111, 111, 47, 120, 46, 99] ∧
+      guessAbsPath fsE S [102, 111, 111, 47, 120, 46, 99] = some (push S [102, 111, 111, 47, 120, 46, 99])) ∧
+    -- a/x.c under -p /p, b/x.c under -p a
+    removePrefix (some [47, 112]) [97, 47, 120, 46, 99] = [97, 47, 120, 46, 99] ∧
+    removePrefix (some [97]) [98, 47, 120, 46, 99] = [98, 47, 120, 46, 99] ∧
+    -- /other/x.c under -s /s -p /s
+    (removePrefix (some S) [47, 111, 116, 104, 101, 114, 47, 120, 46, 99] = [47, 111, 116, 104, 101, 114, 47, 120, 46, 99] ∧
+      stripPrefix [47, 111, 116, 104, 101, 114, 47, 120, 46, 99] S = none) ∧
+    rewriteTwice { sourceDir := some S, prefixDir := some S } fsE [([47, 115, 47, 102, 111, 111, 47, 120, 46, 99], {})]
+      = rewritePaths { sourceDir := some S, prefixDir := some S } fsE [([47, 115, 47, 102, 111, 111, 47, 120, 46, 99], {})] := by
+  decide
 
 /-- Iterating: under the guards of `C05_rewrite_idempotent_partial` every further re-import
 reproduces the report (`rewriteTwice` is one export/import round at the rewrite level). -/
